@@ -1,9 +1,16 @@
 package peer_test
 
 import (
+	"context"
 	"fmt"
+	"strings"
 	"sync"
+	"sync/atomic"
 	"testing"
+	"time"
+
+	"github.com/postalsys/muti-metroo/internal/identity"
+	"github.com/postalsys/muti-metroo/internal/protocol"
 
 	"github.com/postalsys/muti-metroo/internal/peer"
 	"github.com/postalsys/muti-metroo/internal/transport"
@@ -148,5 +155,90 @@ func TestVP_C38_Fresh(t *testing.T) {
 			cls = "peer.Connection"
 		}
 		st.Case(fmt.Sprintf("rounds=%d g=%v k=%d via=%s", rounds, g, k, cls), true, cls)
+	})
+}
+
+// TestVP_C38_Traffic: the allocators of a live link between two peer.Managers, with frames
+// carrying allocated (and foreign-looking) stream identifiers travelling in both directions
+// between the allocations — asymmetric use included (one end opens many streams before the
+// other opens its first). What an end receives must not influence what it allocates.
+func TestVP_C38_Traffic(t *testing.T) {
+	st := vp.NewStats("C38", "traffic", "two peer.Managers linked over the in-memory transport; histories of 4-40 steps: an end allocates 1-8 identifiers, or sends a frame carrying one of its identifiers / an identifier far above both counters to the other end (delivered before the next step); oracle as above; non-trivial = one end received an identifier above its own counter before it allocated")
+	defer st.Flush()
+	rapid.Check(t, func(t *rapid.T) {
+		n := mem.NewNet()
+		ctx, cancel := context.WithCancel(context.Background())
+		defer cancel()
+		var ida, idb identity.AgentID
+		ida[0], idb[0] = 0xA1, 0xB2
+		var got [2]atomic.Int64
+		mk := func(id identity.AgentID, name string, end int) *peer.Manager {
+			cfg := peer.DefaultManagerConfig(id, n.Transport(name))
+			cfg.KeepaliveInterval = time.Hour
+			cfg.ReconnectConfig.InitialDelay = time.Hour
+			cfg.OnFrame = func(c *peer.Connection, f *protocol.Frame) { got[end].Add(1) }
+			return peer.NewManager(cfg)
+		}
+		ma, mb := mk(ida, "A", 0), mk(idb, "B", 1)
+		defer ma.Close()
+		defer mb.Close()
+		n.Listen("B", func(pc transport.PeerConn) { mb.Accept(ctx, pc) })
+		ca, err := ma.ConnectWithTransport(ctx, n.Transport("A"), "B")
+		if err != nil {
+			t.Fatalf("harness: connect: %v", err)
+		}
+		var cb *peer.Connection
+		for i := 0; i < 20000 && cb == nil; i++ {
+			cb = mb.GetPeer(ida)
+			time.Sleep(100 * time.Microsecond)
+		}
+		if cb == nil {
+			t.Fatalf("harness: acceptor never registered the link")
+		}
+		conns := [2]*peer.Connection{ca, cb}
+		mgrs := [2]*peer.Manager{ma, mb}
+		other := [2]identity.AgentID{idb, ida}
+		var ids [2][]uint64
+		var hist []string
+		crossed := false
+		steps := rapid.IntRange(4, 40).Draw(t, "steps")
+		for s := 0; s < steps; s++ {
+			end := rapid.IntRange(0, 1).Draw(t, fmt.Sprintf("end%d", s))
+			switch rapid.IntRange(0, 2).Draw(t, fmt.Sprintf("what%d", s)) {
+			case 0:
+				k := rapid.IntRange(1, 8).Draw(t, fmt.Sprintf("k%d", s))
+				for i := 0; i < k; i++ {
+					ids[end] = append(ids[end], conns[end].NextStreamID())
+				}
+				hist = append(hist, fmt.Sprintf("alloc(%d x%d)", end, k))
+			default:
+				var id uint64
+				if len(ids[end]) > 0 && rapid.IntRange(0, 3).Draw(t, fmt.Sprintf("own%d", s)) > 0 {
+					id = ids[end][rapid.IntRange(0, len(ids[end])-1).Draw(t, fmt.Sprintf("which%d", s))]
+				} else {
+					id = uint64(rapid.IntRange(1, 5000).Draw(t, fmt.Sprintf("far%d", s)))
+				}
+				before := got[1-end].Load()
+				ft := rapid.SampledFrom([]uint8{protocol.FrameStreamData, protocol.FrameStreamClose, protocol.FrameStreamOpenErr, protocol.FrameUDPClose}).Draw(t, fmt.Sprintf("ft%d", s))
+				if err := mgrs[end].SendToPeer(other[end], &protocol.Frame{Type: ft, StreamID: id, Payload: []byte{1, 2, 3}}); err != nil {
+					t.Fatalf("harness: send: %v", err)
+				}
+				for i := 0; i < 40000 && got[1-end].Load() == before; i++ {
+					time.Sleep(50 * time.Microsecond)
+				}
+				next := uint64(1 + 2*len(ids[1-end]))
+				if 1-end == 1 {
+					next = uint64(2 + 2*len(ids[1-end]))
+				}
+				if id >= next {
+					crossed = true
+				}
+				hist = append(hist, fmt.Sprintf("send(%d->%d id=%d)", end, 1-end, id))
+			}
+			if err := vpC38Verify(ids); err != nil {
+				t.Fatalf("VPFAIL C38 %v\n  history: %s", err, strings.Join(hist, "; "))
+			}
+		}
+		st.Case(strings.Join(hist, "; "), crossed)
 	})
 }
